@@ -605,6 +605,12 @@ func PreprocessDeclarationsPrelude(baseURL string, declarations []pa.Compound, p
 			if err != nil {
 				return nil, err
 			}
+			// keep the order of appearance: the declarations of this rule
+			// seen so far come before the nested rule
+			if len(ownDecls) != 0 {
+				out = append(out, KeyedDeclarations{selectors, ownDecls})
+				ownDecls = nil
+			}
 			out = append(out, contents...)
 		}
 
